@@ -112,9 +112,14 @@ def termDump (t : Term) : String :=
   s!"alt={t.onAlt} vis={t.cursorVis} m1002={t.m1002} m1003={t.m1003} m1006={t.m1006} m1004={t.m1004} m2004={t.m2004}" ++
   bufDump "main" t.main t.maxw ++ bufDump "alt" t.alt t.maxw
 
+/-- FNV-1a (64 bit) of a string: the fingerprint of a terminal state -/
+def fnv1a (s : String) : UInt64 :=
+  s.toUTF8.foldl (fun h b => (h ^^^ b.toUInt64) * 1099511628211) 14695981039346656037
+
 open Tea.Render Tea.VT in
 /-- `vt`: the same history lines as `render`; the model's operations are applied to the
-Lean terminal semantics and the final terminal state is printed -/
+Lean terminal semantics; the fingerprint of the terminal state after EVERY operation and the
+final terminal state are printed -/
 def stepVT (line : String) : String :=
   match (line.splitOn " | ") with
   | [] => "bad-op"
@@ -124,15 +129,17 @@ def stepVT (line : String) : String :=
       let t0 : Term := { w := w, h := h, maxw := w }
       let initLine (i : Nat) : Bytes := (s!"init{i}".toUTF8.toList.map (·.toNat)).take w
       let t1 := (List.range r0).foldl (fun t i => applyOps t [.text (initLine i), .cr, .lf]) t0
-      let rec go (r : RState) (t : Term) : List ROp → Term
-        | [] => t
+      let rec go (r : RState) (t : Term) (hs : List String) : List ROp → Term × List String
+        | [] => (t, hs.reverse)
         | o :: os =>
           let (r', out) := Tea.Render.step r o
           let t := match o with
             | .size w h => resize t w h
             | _ => t
-          go r' (applyOps t out) os
-      termDump (go {} t1 ops)
+          let t' := applyOps t out
+          go r' t' (toString (fnv1a (termDump t')) :: hs) os
+      let (t, hs) := go {} t1 [] ops
+      ",".intercalate hs ++ " # " ++ termDump t
     | _, _ => "bad-op"
 
 open Tea.Render in
